@@ -268,6 +268,31 @@ pub fn battery(root: &N, lang: SupportLang, m: &Material, rng: &mut Rng, share_v
     return out;
   }
   let widest: Option<N> = all.iter().max_by_key(|x| x.children().len()).filter(|x| x.children().len() >= 12).cloned();
+  // the sibling walks of the widest node, whatever its length: `follows` / `precedes` with a stop RULE
+  // over the kinds of its children (the window ends at the NEAREST sibling of the stop kind)
+  if let Some(w) = &widest {
+    let mut kinds: Vec<String> = vec![];
+    for c in w.children() {
+      let k = c.kind().to_string();
+      if c.is_named() && !k.is_empty() && k != "ERROR" && !kinds.contains(&k) {
+        kinds.push(k);
+      }
+    }
+    if kinds.len() >= 3 {
+      for t in 0..4usize.min(want) {
+        let a = &kinds[rng.below(kinds.len())];
+        let b = &kinds[rng.below(kinds.len())];
+        let c = &kinds[rng.below(kinds.len())];
+        if a == b || b == c {
+          continue;
+        }
+        let rel = if t % 2 == 0 { "follows" } else { "precedes" };
+        let mut r = json!({"kind": a});
+        r[rel] = json!({"kind": b, "stopBy": {"kind": c}});
+        out.push(json!({"rule": r}));
+      }
+    }
+  }
   let mut tries = 0;
   while out.len() < want && tries < want * 20 {
     tries += 1;
